@@ -113,11 +113,29 @@ var c17calls int
 var c17kept Retainer
 
 var c17pcalls int
+var c17early []*big.Int
+
+// c17requeryEarly recovers the first x values of the process again.
+func c17requeryEarly(c *mon.Ctx) {
+	early := c17early
+	c17early = make([]*big.Int, 6) // full: no more additions while re-querying
+	for _, xv := range early {
+		if xv != nil {
+			c17point(c, xv, "early-x-again")
+		}
+	}
+	c17early = early
+	c.Count("early_x_requeried", int64(len(early)))
+}
 
 func c17point(c *mon.Ctx, xv *big.Int, cls string) {
 	x := FpFromBig(xv)
 	keep := x
 	yL, yS, ok := ref.YFromX(xv)
+	// the first x values of the process are remembered and asked for again much later (after thousands of other x)
+	if ok && len(c17early) < 6 {
+		c17early = append(c17early, new(big.Int).Set(xv))
+	}
 	// the same x is asked for several times in a row, the two roots in varying order
 	c17pcalls++
 	for _, largest := range [][]bool{{true, false, true}, {false, true, false}, {false, false, true}, {true, true, false}}[c17pcalls%4] {
@@ -368,5 +386,35 @@ func runC17(c *mon.Ctx) {
 		c.Count("bulk_values_checked", int64(n))
 		c.EvalN("sqrt|bulk", int64(n), true)
 	})
+	c.Case("early-x-again", func() { c17requeryEarly(c) })
+	// the N-th call: one child computes more than 2^20 roots of known squares in one process (thorough: 2^21)
+	if c.Shard == 0 {
+		c.Case("call-count", func() {
+			rng := c.Rand("call-count")
+			n := c.Pick(1<<20+5000, 1<<21+5000)
+			u := randBig(rng, ref.P)
+			step := randBig(rng, ref.P)
+			for i := 0; i < n; i++ {
+				u = ref.AddP(u, step)
+				if u.Sign() == 0 {
+					continue
+				}
+				v := ref.MulP(u, u)
+				x := FpFromBig(v)
+				res := fp.SqrtPrecomp(&x)
+				if res == nil {
+					c.Fail("sqrt-nil-for-residue", fmt.Sprintf("SqrtPrecomp returned nil for a square (call %d of the case)", i), map[string]string{"v": v.Text(16)})
+					break
+				}
+				r := FpToBig(res)
+				if r.Cmp(u) != 0 && ref.AddP(r, u).Sign() != 0 {
+					c.Fail("sqrt-wrong-root", fmt.Sprintf("SqrtPrecomp(u^2) is neither u nor -u (call %d of the case: the result depends on how many roots the process has computed)", i), map[string]string{"v": v.Text(16), "root": r.Text(16)})
+					break
+				}
+			}
+			c.Count("roots_in_one_process", int64(n))
+			c.EvalN("sqrt|call-count", int64(n), true)
+		})
+	}
 	c.Case("retained-results", func() { c17kept.Flush(c) })
 }
